@@ -53,4 +53,12 @@ CLAIMS = {
   technique="offline frame-stream checker at the receiving application's boundary (every recv()/recv_multipart() result flattened and parsed at frames without MORE) over randomized multipart shapes, call styles, peer attach/detach events and oversize sends; panic watch including the caller's task",
   level_text="Held (apart from the recorded REQ/REP frame-by-frame-read and PUSH frame-by-frame-send findings) on every history explored: the flattened stream is a concatenation of whole sent messages with MORE on all but the last frame, other peers attaching/detaching/dying mid-message change nothing, and over-long messages are refused with an error, never a panic or a truncated delivery. Exploration.",
   level_note="ROUTER.send_multipart receives correctly flagged frames as documented; DEALER senders are paced because DEALER egress ordering is a recorded C01 finding."),
+ "C10": dict(
+  technique="linearizability check of client-boundary call histories against the two-state alternation automaton (exhaustive search, histories <= 24 ops) + gate-forced check-then-act windows + reply-routing echo check",
+  level_text="Held for sequential histories and for reply routing; for concurrent histories the recorded REQ/REP check-then-act findings apply. Every explored history's successful operations are searched exhaustively for an alternating linearisation. Exploration.",
+  level_note="Histories are kept short (4..16 ops) so that the search is exact; a failed or timed-out call is assumed not to have changed state only insofar as the successful calls remain linearisable."),
+ "C11": dict(
+  technique="labelled-payload monitor at the ROUTER and peer boundaries (identity prefix vs announced id, frame-list equality over all 30 empty/non-empty shapes, claimant-only delivery, mandatory/non-mandatory unknown ids, reconnect with same id)",
+  level_text="Held on every scenario explored: prefixes equal announced identities (no placeholder, no foreign id, stable for anonymous peers), payloads unchanged both ways, addressed messages reach only claimants, unknown ids give HostUnreachable / silent drop, a new connection with the same id is routed to. Exploration.",
+  level_note="In AUTO_DELIMITER=0 mode frame lists are compared after dropping a leading routing-id frame and leading empty frames (rzmq's manual-mode delimiter conventions are not pinned down by the property); colliding identities: only the non-claimant rule is judged."),
 }
